@@ -120,5 +120,10 @@ pub fn banana(l: usize, d: usize) -> Entry {
 /// (used to put another sampler into the call history)
 pub fn partner(entry: &Entry, d: usize) -> Option<Entry> {
     let l = entry.ograph().num_loops();
-    catalogue().into_iter().find(|e| !e.rounding && e.ne() == entry.ne() && e.dims.contains(&d) && e.ograph().num_loops() != l && e.ograph().connected())
+    let cat: Vec<Entry> = catalogue().into_iter().filter(|e| !e.rounding && e.dims.contains(&d) && e.ograph().connected() && e.name != entry.name).collect();
+    // preferably the same number of edges and a different loop number; otherwise any graph with another degree of divergence
+    cat.iter()
+        .find(|e| e.ne() == entry.ne() && e.ograph().num_loops() != l)
+        .or_else(|| cat.iter().find(|e| e.ne() <= 4 && e.ograph().dod(d) != entry.ograph().dod(d)))
+        .cloned()
 }
